@@ -162,3 +162,106 @@ theorem overrideRegs_perm (k : String) (l1 l2 : List Symbol) (m : Meta) (hp : l1
   exact hp.foldl_eq' (fun x _ y _ z => overrideStep_comm k z x y) m
 
 end C13
+
+namespace C13
+
+/-! ## no out-of-range slice on well-formed views -/
+
+/-- Symbols lie inside the sections they name, and `.text` / `.rodata` are not repeated
+(so the section a symbol names is the one the loader reads). -/
+structure WellFormed (secs : List Section) (syms : List Symbol) : Prop where
+  inside : ∀ s ∈ syms, ∀ sec d, secs[s.shndx]? = some sec → sec.data = some d →
+    sec.addr ≤ s.value ∧ s.value + s.size ≤ sec.addr + d.length
+  small : ∀ sec ∈ secs, ∀ d, sec.data = some d → d.length < U64
+  uniq : ∀ a ∈ secs, ∀ b ∈ secs, a.name = b.name → (a.name = ".text" ∨ a.name = ".rodata") → a = b
+
+theorem findSection_spec {secs : List Section} {n : String} {sec : Section}
+    (h : findSection secs n = some sec) : sec ∈ secs ∧ sec.name = n := by
+  unfold findSection at h
+  exact ⟨List.mem_of_find?_eq_some h, by simpa using List.find?_some h⟩
+
+theorem fromEntireText_ne_fault (d : Bytes) : fromEntireText d ≠ .fault := by
+  unfold fromEntireText parseV2V3Header?
+  split
+  · rename_i h
+    simp only [ge_iff_le, Bool.and_eq_true, decide_eq_true_eq] at h
+    rw [if_neg (by omega)]
+    simp
+  · simp
+
+theorem withSym_ne_fault (o : Outcome) (s : Symbol) (h : o ≠ .fault) : withSym o s ≠ .fault := by
+  cases o <;> simp_all [withSym]
+
+theorem findV5_ne_fault (secs : List Section) (syms : List Symbol) (k : String)
+    (wf : WellFormed secs syms) : findV5 secs k syms ≠ .fault := by
+  unfold findV5
+  cases hro : findSection secs ".rodata" with
+  | none => simp
+  | some ro =>
+    obtain ⟨hrom, hron⟩ := findSection_spec hro
+    simp only
+    cases hrd : ro.data with
+    | none => simp
+    | some rod =>
+      simp only
+      cases hf : syms.find? (fun s => s.name == k ++ ".kd" && s.size == 64) with
+      | none => simp
+      | some ks =>
+        simp only
+        have hks : ks ∈ syms := List.mem_of_find?_eq_some hf
+        have hsz : ks.size = 64 := by
+          have := List.find?_some hf
+          simp only [Bool.and_eq_true, beq_iff_eq] at this
+          exact this.2
+        cases hsec : secs[ks.shndx]? with
+        | none => simp
+        | some sec =>
+          simp only
+          split
+          · rename_i hn
+            have hn' : sec.name = ".rodata" := by simpa using hn
+            have hsm : sec ∈ secs := List.mem_of_getElem? hsec
+            have he : sec = ro := wf.uniq sec hsm ro hrom (by rw [hn', hron]) (Or.inr hn')
+            subst he
+            obtain ⟨h1, h2⟩ := wf.inside ks hks sec rod hsec hrd
+            have hl := wf.small sec hsm rod hrd
+            rw [hsz] at h2
+            have hoff : wrapSub ks.value sec.addr = ks.value - sec.addr := wrapSub_of_le h1
+            have hhi : (ks.value - sec.addr + 64) % U64 = ks.value - sec.addr + 64 :=
+              Nat.mod_eq_of_lt (by omega)
+            simp only [hoff, hhi]
+            rw [if_pos (by omega), if_pos (by omega)]
+            unfold parseV5KernelDescriptor?
+            rw [if_neg (by simp only [List.length_take, List.length_drop]; omega)]
+            simp
+          · simp
+
+theorem loadNamed_ne_fault (secs : List Section) (text : Section) (td : Bytes) (syms : List Symbol) (k : String)
+    (ht : findSection secs ".text" = some text) (htd : text.data = some td)
+    (wf : WellFormed secs syms) : loadNamed secs text td syms k ≠ .fault := by
+  obtain ⟨htm, htn⟩ := findSection_spec ht
+  unfold loadNamed
+  cases hf : (syms.filter (isKernelSym secs)).find? (·.name == k) with
+  | none => simp
+  | some s =>
+    simp only
+    have hmem := List.mem_filter.mp (List.mem_of_find?_eq_some hf)
+    have hk := hmem.2
+    unfold isKernelSym at hk
+    cases hsec : secs[s.shndx]? with
+    | none => simp [hsec] at hk
+    | some sec =>
+      simp only [hsec, Bool.and_eq_true, beq_iff_eq] at hk
+      have hsm : sec ∈ secs := List.mem_of_getElem? hsec
+      have he : sec = text := wf.uniq sec hsm text htm (by rw [hk.2.1, htn]) (Or.inl hk.2.1)
+      subst he
+      obtain ⟨h1, h2⟩ := wf.inside s hmem.1 sec td hsec htd
+      have hl := wf.small sec hsm td htd
+      simp only [wrapSub_of_le h1, sliceU64_ok (show s.value - sec.addr + s.size ≤ td.length by omega) hl]
+      have hv := findV5_ne_fault secs syms k wf
+      cases hv5 : findV5 secs k syms with
+      | fault => exact absurd hv5 hv
+      | found m => simp
+      | none => exact withSym_ne_fault _ _ (fromEntireText_ne_fault _)
+
+end C13
